@@ -8,6 +8,9 @@
 //!   LISTEN <l> v4|v5 [static=<uhex>:<phex>,..] [cb=A|R|E:<cidhex|*>:<uhex>:<phex>] [timeout=<ms>] [dyn=0|1]
 //!   OPEN <c> <l>                     spawn the connection task on a new duplex stream
 //!   SEND <c> <item> ...              items are encoded and written with ONE write_all
+//!   SENDM <c> <item>.. | <c> <item>..   one write per connection, no task runs in between
+//!   TAP                              (before the first OPEN) log every event the tasks send to the router
+//!   EVENTS                           the log so far: <connection id>:<event kind> ...
 //!   RECV <c> <n> <ms>                read up to n packets (each within ms)
 //!   UNTIL <c> <payloadhex> <ms>      read packets until a PUBLISH with that payload (fence)
 //!   HEX <c> <ms>                     raw bytes received until EOF / silence (diagnostics)
@@ -563,6 +566,10 @@ impl Conn {
 }
 
 struct World {
+    /// TAP: the connection tasks send their events to a forwarder that logs them (kind and
+    /// connection id, in order) before handing them to the router unchanged
+    tap: bool,
+    events: Arc<std::sync::Mutex<Vec<String>>>,
     router_tx: Option<flume::Sender<(usize, rumqttd::verif::Event)>>,
     wills: WillHandlers,
     listeners: HashMap<String, Listener>,
@@ -571,7 +578,7 @@ struct World {
 
 impl World {
     fn new() -> World {
-        World { router_tx: None, wills: WillHandlers::default(), listeners: HashMap::new(), conns: vec![] }
+        World { tap: false, events: Arc::new(std::sync::Mutex::new(vec![])), router_tx: None, wills: WillHandlers::default(), listeners: HashMap::new(), conns: vec![] }
     }
     fn conn(&mut self, name: &str) -> Option<&mut Conn> {
         self.conns.iter_mut().rev().find(|(n, _)| n == name).map(|(_, c)| c)
@@ -587,7 +594,31 @@ impl World {
                 initialized_filters: None,
                 shared_subscriptions_strategy: Default::default(),
             };
-            self.router_tx = Some(Router::new(0, config).spawn());
+            let real = Router::new(0, config).spawn();
+            if self.tap {
+                use rumqttd::verif::Event;
+                let (ptx, prx) = flume::unbounded::<(usize, Event)>();
+                let log = self.events.clone();
+                std::thread::spawn(move || {
+                    for (id, ev) in prx.iter() {
+                        let kind = match &ev {
+                            Event::Connect { .. } => "Connect".to_string(),
+                            Event::Ready => "Ready".to_string(),
+                            Event::DeviceData => "DeviceData".to_string(),
+                            Event::Disconnect => "Disconnect".to_string(),
+                            Event::PublishWill((cid, _)) => format!("PublishWill:{}", hex(cid.as_bytes())),
+                            _ => "Other".to_string(),
+                        };
+                        log.lock().unwrap().push(format!("{id}:{kind}"));
+                        if real.send((id, ev)).is_err() {
+                            break;
+                        }
+                    }
+                });
+                self.router_tx = Some(ptx);
+            } else {
+                self.router_tx = Some(real);
+            }
         }
         self.router_tx.clone().unwrap()
     }
@@ -708,6 +739,45 @@ async fn command(w: &mut World, line: &str) -> String {
             };
             w.conns.push((t[1].to_string(), Conn { v5, stream: Some(client), buf: BytesMut::new(), task: Some(task), status: "running", eof: false }));
             "OK".into()
+        }
+        "TAP" => {
+            w.tap = true;
+            "OK".into()
+        }
+        "EVENTS" => {
+            let l = w.events.lock().unwrap();
+            if l.is_empty() { "EVENTS -".to_string() } else { format!("EVENTS {}", l.join(" ")) }
+        }
+        "SENDM" => {
+            // SENDM c1 item.. | c2 item.. : one write per connection, nothing runs in between
+            let mut writes: Vec<(String, BytesMut)> = vec![];
+            for group in t[1..].split(|x| *x == "|") {
+                if group.is_empty() {
+                    return "SCRIPT-ERROR empty group".into();
+                }
+                let Some(c) = w.conn(group[0]) else { return "SCRIPT-ERROR no conn".into() };
+                let mut out = BytesMut::new();
+                for item in &group[1..] {
+                    if let Err(e) = encode(item, c.v5, &mut out) {
+                        return format!("SCRIPT-ERROR {e}");
+                    }
+                }
+                writes.push((group[0].to_string(), out));
+            }
+            let mut res = vec![];
+            for (name, out) in writes {
+                let c = w.conn(&name).unwrap();
+                res.push(match c.stream.as_mut() {
+                    None => "ERR".to_string(),
+                    // the duplex buffer (1 MiB) takes these writes without suspending
+                    Some(sx) => match sx.write_all(&out).await {
+                        Ok(()) => "OK".to_string(),
+                        Err(e) => format!("ERR:{:?}", e.kind()),
+                    },
+                });
+            }
+            tokio::task::yield_now().await;
+            res.join(",")
         }
         "SEND" => {
             let Some(c) = w.conn(t[1]) else { return "SCRIPT-ERROR no conn".into() };
